@@ -241,8 +241,8 @@ func TestC01(t *testing.T) {
 	rapid.Check(t, func(t *rapid.T) {
 		var cl []string
 		serverName := hello.TwoLabels(hello.GenName(t, "server_name", 253))
-		publicName := hello.TwoLabels(hello.GenName(t, "public_name", 200))
-		if publicName == serverName {
+		publicName := hello.MixCase(t, "public_name", hello.TwoLabels(hello.GenName(t, "public_name", 200)))
+		if strings.EqualFold(publicName, serverName) {
 			publicName = "p." + publicName[:min(len(publicName), 190)]
 		}
 		// keys of the client-facing server
